@@ -65,7 +65,11 @@ class C19(Prop):
                         "extractor E-cascade: the real Cascade.run evaluated on all 1- and (required) 2-stage pipelines over the "
                         "behaviour alphabet, regenerated each run into Operon/Gen/CascadeTable.lean (c19_stage_table_agrees)",
                         "modelled, not verified: run_parallel (Operon.Cascade.runParallel), statistics counters, the MAPK preset's "
-                        "lambdas (driver abstraction of dict signals by tier), timing fields / get_history / AgentCascade not modelled"]
+                        "lambdas (driver abstraction of dict signals by tier); timing fields not modelled",
+                        "history / get_history and AgentCascade.add_agent_stage: modelled (Operon/Model/CascadeHist.lean) and tied by "
+                        "evaluation of the real code on every run (histFacts, agentFacts in Operon/Gen/CascadeTable.lean; "
+                        "c19_history_agrees_with_evaluated_source, c19_agent_stage_agrees_with_evaluated_source); in the correspondence "
+                        "the agents of an AgentCascade are stubs installed as the module's BioAgent"]
 
     def setup(self, ctx):
         import_repo()
@@ -108,7 +112,8 @@ class C19(Prop):
             r0 = rng.random()
             if r0 < 0.15:
                 # construction mode: run() must behave the same whatever `mode` the cascade was built with
-                case["lines"][0] += " " + rng.choice(["parallel", "conditional", "amplifying", "loud", "loud"])
+                case["lines"][0] += " " + rng.choice(["parallel", "conditional", "amplifying", "loud", "loud", "intflags", "intflags",
+                                                      "clock:day", "clock:day", "clock:still", "clock:back"])
             elif r0 < 0.3:
                 # an on_stage_complete observer (returns, or raises at one stage / always)
                 case["lines"].insert(1, "observer " + rng.choice(["ok", "always", f"at:{rng.randrange(k)}", f"at:{rng.randrange(k)}",
@@ -192,7 +197,7 @@ class C19(Prop):
                             names.remove(nm)
                     else:
                         cp, pr, eh, req, amp = self._rand_stage(rng)
-                        nm = rng.choice(names + [f"s{rng.randint(0, 6)}", "dup"])
+                        nm = rng.choice(names + [f"s{rng.randint(0, 6)}", "dup", "EMPTY", "S0"])
                         idx = rng.randint(0, len(names))
                         lines.append(f"insert {idx} {cp} {pr} {eh} {show_bool(req)} {amp} {nm}")
                         names.insert(idx, nm)
@@ -250,7 +255,7 @@ class C19(Prop):
                  for eh in ("none", "ok", "raise")]
         for halt in (True, False):
             for s1 in small:
-                for mode in ("parallel", "conditional", "amplifying", "loud"):
+                for mode in ("parallel", "conditional", "amplifying", "loud", "intflags", "clock:day", "clock:still", "clock:back"):
                     c = self._case(halt, "4", [s1, ("pass", "ok", "none", True, "2")], 1, "exhaustive construction mode")
                     c["lines"][0] += " " + mode
                     extra.append(c)
@@ -315,9 +320,18 @@ class C19(Prop):
         for halt in (True, False):
             for order in itertools.permutations([("pass", "ok", "none", True, "2"), ("none", "raise", "none", False, "2"),
                                                  ("reject", "ok", "none", False, "4")]):
-                lines = [f"cfg {show_bool(halt)} 16"] + [f"stage {cp} {pr} {eh} {show_bool(req)} {amp} n" for (cp, pr, eh, req, amp) in order]
-                dup.append({"lines": lines + ["run 1", "remove n", "run 1", "setgate n reject", "run 1", "remove n", "run 1", "hist 0", "stats"],
-                            "note": "exhaustive: three stages sharing one name, removed one by one"})
+                for n in ("n", "EMPTY"):       # EMPTY: the empty string as a stage name (falsy: `blocked_at` may be "")
+                    lines = [f"cfg {show_bool(halt)} 16"] + [f"stage {cp} {pr} {eh} {show_bool(req)} {amp} {n}"
+                                                             for (cp, pr, eh, req, amp) in order]
+                    dup.append({"lines": lines + ["run 1", f"remove {n}", "run 1", f"setgate {n} reject", "run 1", f"remove {n}", "run 1",
+                                                  "hist 0", "stats"],
+                                "note": "exhaustive: three stages sharing one name, removed one by one"})
+        for halt in (True, False):
+            for g in ("reject", "raise", "pass"):
+                for pr in ("ok", "raise"):
+                    dup.append({"lines": [f"cfg {show_bool(halt)} 4", f"stage {g} {pr} none 1 2 EMPTY", "stage pass ok none 1 2 b", "run 1",
+                                          "prun 1", "setgate EMPTY pass", "run 1", "hist 2", "stats"],
+                                "note": "exhaustive: a stage whose name is the empty string blocks / fails"})
         # the history: what get_history hands out, and the internal limit of 1000 records crossed
         histc = []
         for halt in ("1", "0"):
@@ -371,6 +385,30 @@ class C19(Prop):
         cur = []       # descriptors of the stages currently in the cascade, in order (parallel to casc._stages)
         made = [0]
         shadows = []
+        flags = {"int": False, "clock": None}     # construction-mode axes of the current cascade
+        real_time = m.time
+
+        class FakeTime:
+            """the module `time` as cascade.py sees it: a clock that jumps a day per reading, stands still, or runs backwards"""
+            def __init__(self, kind):
+                self.kind, self.now = kind, 1_700_000_000.0
+
+            def time(self):
+                self.now += {"day": 86400.0, "still": 0.0, "back": -3600.0}[self.kind]
+                return self.now
+
+        def nm_of(tok):
+            return "" if tok == "EMPTY" else tok      # the empty string is a legal (falsy) stage name
+
+        def tok_of(name):
+            return "EMPTY" if name == "" else str(name)
+
+        def flag(b):
+            return int(b) if flags["int"] else b      # flags handed over as 1 / 0 instead of True / False
+
+        def num(a):
+            return int(a) if flags["int"] and a == int(a) else a      # integral factors as ints
+
         par_recs = []      # records returned by run_parallel (kept alive: `hist` tells them apart by identity)
         agent_env = {"orig": None, "pending": None, "budget": None}
 
@@ -492,8 +530,8 @@ class C19(Prop):
                 if eh != "ok":
                     raise fault(eh, "e")
                 return 7000 + i0
-            st = m.CascadeStage(name, pf, amplification=amp, checkpoint=cpf,
-                                on_error=None if eh == "none" else ef, required=req)
+            st = m.CascadeStage(name, pf, amplification=num(amp), checkpoint=cpf,
+                                on_error=None if eh == "none" else ef, required=flag(req))
             d["stage"] = st
             return d, st
 
@@ -511,7 +549,7 @@ class C19(Prop):
                            for j, s in enumerate(r.stage_results))
             # a successful run whose last signal is None releases None: told apart from "no output" by the success flag
             fin = "none" if (r.final_output is None and not r.success) else f"some:{sig(r.final_output)}"
-            blk = "none" if r.blocked_at is None else str(r.blocked_at)
+            blk = "none" if r.blocked_at is None else tok_of(r.blocked_at)
             return " ".join([show_bool(r.success), fin, str(r.stages_completed), str(r.stages_total),
                              show_rat(r.total_amplification), blk, "[" + res + "]",
                              "[" + ",".join(log) + "]", "[" + ",".join(map(str, seen)) + "]"])
@@ -554,10 +592,13 @@ class C19(Prop):
                     # `loud`: console output on (silent=False; stdout is swallowed for the duration of the case): the prints
                     # format stage names, exceptions and the gain - they must not change what run() does
                     loud = len(t) == 4 and t[3] == "loud"
+                    flags["int"] = len(t) == 4 and t[3] == "intflags"
+                    flags["clock"] = t[3][6:] if len(t) == 4 and t[3].startswith("clock:") else None
+                    m.time = FakeTime(flags["clock"]) if flags["clock"] else real_time
                     if loud and not swallowed:
                         swallowed.append(contextlib.redirect_stdout(io.StringIO()))
                         swallowed[0].__enter__()
-                    casc = m.Cascade("c", mode=mode, halt_on_failure=t[1] == "1", max_amplification=float(Fraction(t[2])),
+                    casc = m.Cascade("c", mode=mode, halt_on_failure=flag(t[1] == "1"), max_amplification=num(float(Fraction(t[2]))),
                                      silent=not loud)
                     log.clear()
                     cur.clear()
@@ -569,6 +610,8 @@ class C19(Prop):
                     # the preset's stage objects are picked up through the public add_stage (the preset registers its
                     # tiers with it); only if that sees nothing, through the private list
                     added = []
+                    flags["int"], flags["clock"] = False, None
+                    m.time = real_time
 
                     class _Rec(m.MAPKCascade):
                         def add_stage(self, stage, *a, **kw):
@@ -662,7 +705,7 @@ class C19(Prop):
                     # public configuration attributes re-assigned on the live cascade (between runs)
                     ensure()
                     if t[1] == "halt":
-                        casc.halt_on_failure = t[2] == "1"
+                        casc.halt_on_failure = flag(t[2] == "1")
                     else:
                         casc.max_amplification = float(Fraction(t[2]))
                     obs.append("ok")
@@ -670,7 +713,7 @@ class C19(Prop):
                     # public attributes of a live stage re-assigned (first stage carrying that name): a gate installed,
                     # replaced or removed after construction; a factor changed
                     ensure()
-                    d = next((x for x in cur if x["name"] == t[1]), None)
+                    d = next((x for x in cur if x["name"] == nm_of(t[1])), None)
                     if d is None:
                         obs.append("0")
                     elif t[0] == "setgate":
@@ -687,23 +730,23 @@ class C19(Prop):
                     obs.append(f"{g['stages_count']} {g['runs_count']} {g['successful_runs']} {g['failed_runs']}")
                 elif t[0] == "stage" and len(t) in (6, 7):
                     ensure()
-                    name = t[6] if len(t) == 7 else f"s{made[0]}"
+                    name = nm_of(t[6]) if len(t) == 7 else f"s{made[0]}"
                     d, st = mk(t[1], t[2], t[3], t[4] == "1", float(Fraction(t[5])), name)
                     casc.add_stage(st)
                     cur.append(d)
                     obs.append("ok")
                 elif t[0] == "insert" and len(t) == 8:
                     ensure()
-                    d, st = mk(t[2], t[3], t[4], t[5] == "1", float(Fraction(t[6])), t[7])
+                    d, st = mk(t[2], t[3], t[4], t[5] == "1", float(Fraction(t[6])), nm_of(t[7]))
                     idx = min(int(t[1]), len(cur))
                     casc.insert_stage(idx, st)
                     cur.insert(idx, d)
                     obs.append("ok")
                 elif t[0] == "remove" and len(t) == 2:
                     ensure()
-                    ok = casc.remove_stage(t[1])
+                    ok = casc.remove_stage(nm_of(t[1]))
                     if ok:
-                        k = next(k for k, x in enumerate(cur) if x["name"] == t[1])
+                        k = next(k for k, x in enumerate(cur) if x["name"] == nm_of(t[1]))
                         cur.pop(k)
                     obs.append("1" if ok else "0")
                 elif t[0] == "prun" and len(t) == 2:
@@ -722,7 +765,7 @@ class C19(Prop):
                     outs = "none" if r.final_output is None else \
                         "[" + ",".join(sorted(str(sig(v)) for v in r.final_output)) + "]" if isinstance(r.final_output, list) \
                         else f"some:{sig(r.final_output)}"
-                    res = sorted(f"{q.stage_name}:{stc.get(q.status.value, '?')}:{show_rat(q.amplification_factor)}"
+                    res = sorted(f"{tok_of(q.stage_name)}:{stc.get(q.status.value, '?')}:{show_rat(q.amplification_factor)}"
                                  for q in r.stage_results)
                     extra = ("" if not (seen or cshown) else " OBSERVERS-CALLED") + \
                             ("" if r.blocked_at is None else f" blocked_at:{r.blocked_at}")
@@ -755,6 +798,8 @@ class C19(Prop):
                                 return m.ActionProtein("EXECUTE", m.Signal(content=str(out)) if d["kind"] == "sig" else out, 1.0)
                         m.BioAgent = StubAgent
                     agent_env["budget"] = object()
+                    flags["int"], flags["clock"] = False, None
+                    m.time = real_time
                     added_a = []
 
                     class _RecA(m.AgentCascade):
@@ -775,11 +820,11 @@ class C19(Prop):
                         obs.append("bad-op")
                     else:
                         d = {"cp": t[1], "pr": "ok" if t[2] in ("ok", "sig") else "raise", "kind": t[2], "eh": "none", "req": True,
-                             "amp": float(Fraction(t[3])), "id": made[0], "name": t[4]}
+                             "amp": float(Fraction(t[3])), "id": made[0], "name": nm_of(t[4])}
                         made[0] += 1
                         agent_env["pending"] = d
                         n0 = len(casc._added)
-                        back = casc.add_agent_stage(t[4], "Processor", amplification=d["amp"], checkpoint=gate_object(d))
+                        back = casc.add_agent_stage(nm_of(t[4]), "Processor", amplification=d["amp"], checkpoint=gate_object(d))
                         agent_env["pending"] = None
                         if len(casc._added) != n0 + 1:
                             obs.append(f"registered:{len(casc._added) - n0}")
@@ -830,6 +875,7 @@ class C19(Prop):
             swallowed[0].__exit__(None, None, None)
         if agent_env["orig"] is not None:
             m.BioAgent = agent_env["orig"]
+        m.time = real_time
         return obs, None
 
     # --- oracle: the property text, evaluated on what the real code did --------------------------------------
